@@ -189,6 +189,9 @@ class GridSpec(H.Spec):
         for r in (('A', 'E', 'B', 'X', 'A2', 'I7') if 'A' in self.ROWS else tuple(self.ROWS)) + tuple(x for x in ('XF', 'XT') if x in self.ROWS):
             ops.append(('remove', r))
         ops += [('reverse',), ('clear',)]
+        if self.prop == 'C14' and n:
+            # an operation on the grid from inside an iteration over the same grid: the iterator looks at the live rows, as a list's does
+            ops += [('loop_remove',), ('loop_append', 'A'), ('loop_insert0', 'E'), ('loop_pop_last',)]
         if self.LOOKUPS:
             for k in self.lookup_keys():
                 ops.append(('getkey', k))
@@ -274,6 +277,27 @@ class GridSpec(H.Spec):
             v = mk(op[1])
             impl = lambda: g.remove(v)  # noqa: E731
             ref = lambda: model.remove(v)  # noqa: E731
+        elif kind.startswith('loop_'):
+            # both sides must hold the SAME new row object (rows are compared by identity)
+            shared = mk(op[1]) if len(op) > 1 else None
+
+            def during_with(seq):
+                visited = 0
+                for r in seq:
+                    visited += 1
+                    if visited > 8:
+                        break
+                    if kind == 'loop_remove':
+                        seq.remove(r)
+                    elif kind == 'loop_append' and len(seq) < MAXLEN:
+                        seq.append(shared)
+                    elif kind == 'loop_insert0' and len(seq) < MAXLEN:
+                        seq.insert(0, shared)
+                    elif kind == 'loop_pop_last' and len(seq) > 1:
+                        seq.pop()
+                return visited
+            impl = lambda: during_with(g)  # noqa: E731
+            ref = lambda: during_with(model)  # noqa: E731
         elif kind == 'reverse':
             impl = lambda: g.reverse()  # noqa: E731
             ref = lambda: model.reverse()  # noqa: E731
@@ -337,6 +361,9 @@ class GridSpec(H.Spec):
             st_.fail('operation-outcome-differs-from-list', dict(sig, expected=str(exp[1] if exp[0] == 'raise' else 'ok'),
                                                                  observed=str(got[1] if got[0] == 'raise' else 'ok')),
                     case, {'op': list(op), 'before': self.labels(before)})
+            return False
+        if got[0] == 'ok' and kind.startswith('loop_') and got[1] != exp[1]:
+            st_.fail('iteration-visited-another-number-of-rows', dict(sig, expected=str(exp[1]), observed=str(got[1])), case, {'op': list(op), 'before': self.labels(before)})
             return False
         if got[0] == 'ok' and got[1] is not exp[1] and kind in ('pop', 'pop_last'):
             st_.fail('operation-returned-wrong-row', sig, case, {'op': list(op)})
